@@ -294,3 +294,17 @@ mod test {
         list1.push_front(2);
     }
 }
+
+#[cfg(numbat_verif)]
+impl<T: Clone> NumbatList<T> {
+    /// Internal representation for external verification tooling:
+    /// (allocation address, all elements of the allocation, view, strong count)
+    pub fn verif_repr(&self) -> (usize, Vec<T>, Option<(usize, usize)>, usize) {
+        (
+            Arc::as_ptr(&self.alloc) as usize,
+            self.alloc.iter().cloned().collect(),
+            self.view,
+            Arc::strong_count(&self.alloc),
+        )
+    }
+}
